@@ -233,17 +233,53 @@ class ContainerRun:
         self.mc = MetadorContainer(self.raw)
         self.dead: Optional[str] = None
 
+    def _second_view(self, opener) -> Dict[str, Any]:
+        """Observation through another, read-only container object obtained by `opener`."""
+        v = opener()
+        try:
+            o = observe_container(v)
+            o["mode2"] = str(v.mode)
+            return o
+        finally:
+            v.close()
+
     def step(self, op) -> Dict[str, Any]:
         from metador_core.container import MetadorContainer
+        from metador_core.container.provider import SimpleContainerProvider
         if self.dead:
             return {"cls": "dead", "err": self.dead, "obs": None}
         cls, err = "ok", None
+        second = None
         try:
             with ih5lib.hard_time_limit(OP_TIMEOUT):
                 if op[0] == "bnd":
                     if self.drv != "h5":
                         self.raw.commit_patch()
                         self.raw.create_patch()
+                elif op[0] == "peek":
+                    # a second, read-only view opened from the container's own description of
+                    # itself while the first stays open (IH5: between commit_patch and create_patch)
+                    if self.drv != "h5":
+                        self.raw.commit_patch()
+                    else:
+                        self.raw.flush()
+                    toc = self.mc.metador
+                    second = self._second_view(lambda: MetadorContainer(toc.driver(toc.source, "r")))
+                    second.pop("mode2")        # plain HDF5 shares the handle: mode not comparable
+                    if self.drv != "h5":
+                        self.raw.create_patch()
+                elif op[0] == "reopen" and len(op) > 1 and op[1] == "src":
+                    # reopen THROUGH metador.source / metador.driver (all drivers, also plain HDF5):
+                    # remember the container in a provider, close, look at it through the provider
+                    # (read-only), then reopen it writable from (driver, source)
+                    prov = SimpleContainerProvider()
+                    prov["k"] = self.mc
+                    src, drv_cls = self.mc.metador.source, self.mc.metador.driver
+                    self.raw.close()
+                    second = self._second_view(lambda: prov.get("k"))
+                    # (metador.driver of an IH5MFRecord is IH5Record: keep the manifest variant)
+                    self.raw = (self.cls if self.drv == "mf" else drv_cls)(src, "r+")
+                    self.mc = MetadorContainer(self.raw)
                 elif op[0] == "reopen":
                     if self.drv != "h5":
                         self.raw.close()
@@ -257,11 +293,14 @@ class ContainerRun:
             return {"cls": "timeout", "err": "operation did not terminate", "obs": None}
         except Exception as e:  # noqa: BLE001
             cls, err = "fail", f"{type(e).__name__}: {e}"[:200]
-            if op[0] in ("bnd", "reopen"):
+            if op[0] in ("bnd", "reopen", "peek"):
                 cls = "boundary-error"
         try:
             with ih5lib.hard_time_limit(OP_TIMEOUT):
                 obs = observe_container(self.mc)
+                obs["mode"] = str(self.mc.mode)
+                if op[0] in ("peek", "reopen") and (op[0] == "peek" or op[1:] == ["src"]):
+                    obs["second-view"] = second
         except vlib.CaseTimeout:
             self.dead = "timeout-in-read"
             return {"cls": cls, "err": err, "obs": {"READ": "timeout"}}
@@ -299,7 +338,7 @@ def lockstep_container(ops, drivers=DRIVERS) -> Dict[str, Any]:
             for i, op in enumerate(ops):
                 res = [r.step(op) for r in runs]
                 out["classes"].append([x["cls"] for x in res])
-                if op[0] in ("bnd", "reopen"):
+                if op[0] in ("bnd", "reopen", "peek"):
                     seen_bnd = True
                 elif seen_bnd and res[0]["cls"] == "ok":
                     out["nontrivial"] += 1
@@ -314,7 +353,7 @@ def lockstep_container(ops, drivers=DRIVERS) -> Dict[str, Any]:
                     a, b = dict(x["obs"] or {}), dict(ref["obs"] or {})
                     pa, pb = a.pop("probes", None), b.pop("probes", None)
                     if a != b:
-                        aspect = next((k for k in ("READ", "view", "meta", "queries", "listings", "schemas")
+                        aspect = next((k for k in ("READ", "view", "meta", "queries", "listings", "schemas", "mode", "second-view")
                                        if a.get(k) != b.get(k)), "obs")
                         out["diff"] = {"step": i, "driver": drv, "aspect": aspect, "op": op,
                                        "what": f"{DRV_NAME[drv]} vs h5py.File differ in {aspect} at "
@@ -406,7 +445,7 @@ def _spell(rng, cwd: List[str], target: List[str]) -> str:
 def _mirror_apply(mir: "Mirror", op):
     """Approximate effect of a (prefix) operation on the generator's mirror."""
     k = op[0]
-    if k in ("bnd", "reopen"):
+    if k in ("bnd", "reopen", "peek"):
         return
     if k in ("attach", "detach"):
         t = tuple(s for s in op[1].split("/") if s)
@@ -435,8 +474,8 @@ def gen_container_history(rng, nops: int, keys: List[str], p_bnd: float, feature
         _mirror_apply(mir, op)
     val = lambda: rng.choice(VALUES)  # noqa: E731
     while len(ops) < nops:
-        if rng.random() < p_bnd and ops and ops[-1][0] not in ("bnd", "reopen"):
-            ops.append(["bnd"] if rng.random() < 0.7 else ["reopen"])
+        if rng.random() < p_bnd and ops and ops[-1][0] not in ("bnd", "reopen", "peek"):
+            ops.append(rng.choices([["bnd"], ["reopen"], ["reopen", "src"], ["peek"]], [50, 15, 20, 15])[0])
             continue
         groups = mir.groups()
         # the receiver ("cwd"): the container object or an existing group of depth 1..3
@@ -596,7 +635,7 @@ def targeted_prefix(rng, keys: List[str]) -> List[list]:
     k = [rng.choice(keys) for _ in range(5)]
     if len(set(k[:3])) < 3:
         return []
-    mb = lambda p=0.7: [rng.choice([["bnd"], ["bnd"], ["reopen"]])] if rng.random() < p else []  # noqa: E731
+    mb = lambda p=0.7: [rng.choice([["bnd"], ["bnd"], ["reopen"], ["reopen", "src"], ["peek"]])] if rng.random() < p else []  # noqa: E731
     val = lambda: rng.choice(VALUES)  # noqa: E731
     sc = lambda: rng.choice(SCHEMA_NAMES)  # noqa: E731
     a, ab, abc = "/" + k[0], f"/{k[0]}/{k[1]}", f"/{k[0]}/{k[1]}/{k[2]}"
@@ -989,7 +1028,7 @@ def run(ctx: vlib.Ctx):
         cnontrivial += r["nontrivial"]
         for op in h[:len(r["classes"])]:
             ckinds[op[0]] = ckinds.get(op[0], 0) + 1
-            if len(op) > 1 and op[1] != "/" and op[0] not in ("reopen",):
+            if len(op) > 1 and op[1] != "/" and op[0] not in ("reopen",) and op[1] != "src":
                 crecv += 1
         for d in (r["diff"], r.get("probe_diff")):
             if d:
